@@ -11,7 +11,7 @@ COQ_IMPORTS = 'From Bac Require Import Base Npci.'
 RULE = ('cases: NPDU.encode over expecting-reply x priority 0..3 x DADR {none, station 1/6/255 octets, remote broadcast, global} x '
         'SADR {none, station 1/6/255} x hop {0,1,254,255} x message {none, 0, 0x13, 0x7f, 0x80+vendor, 0xff+vendor} (quick: hop cycled, '
         '255-octet MACs on a quarter of the grid; thorough: full product), every message type 0..255 under two header shapes, refusing encodes (None/oversize fields, broadcast SADR); '
-        'NPDU.decode of every valid frame produced, of all 2^8 control octets x 6 well-formed/ill-formed continuations, all octet strings '
+        'NPDU.decode of every valid frame produced, of all 2^8 control octets x up to 9 well-formed/ill-formed continuations (payload, truncations, SNET=0xFFFF with SLEN 1/n/0, SLEN=0, DNET=0xFFFF with DLEN>0), all octet strings '
         'of length <= 1 and [1,c], a grid of other 2-octet strings, all [1,c,x] (thorough), random 3-octet strings, single-octet mutations / '
         'deletions / insertions / truncations of valid frames; the 12 messages: network lists of length 0..20, routing tables with 0..5 '
         'entries and port-info length {0,1,2,255,256}, boundary nets/octets, decode of bodies of length <= 1 (32 per type quick, all thorough) and sampled 2..6 under '
@@ -518,9 +518,10 @@ def control_continuations(rng, c):
         outs.append(good[:rng.randrange(2, len(good))])                   # truncated inside the optional fields
         outs.append(good[:-1])
     if c & 0x08:                                                          # broadcast / zero-length source
-        Hb = H[:4] + (('rs', 0xFFFF, rmac(rng, 2)),) + H[5:]
-        x = bytearray(ref_layout(Hb)); x[1] = c
-        outs.append(bytes(x) + payload)
+        for ln in (1, rng.choice([2, 3, 6]), 0):                          # SNET=0xFFFF with SLEN 1, a few, 0
+            Hb = H[:4] + (('rs', 0xFFFF, rmac(rng, ln)),) + H[5:]
+            x = bytearray(ref_layout(Hb)); x[1] = c
+            outs.append(bytes(x) + payload)
         Hz = H[:4] + (('rs', rnet(rng), b''),) + H[5:]
         x = bytearray(ref_layout(Hz)); x[1] = c
         outs.append(bytes(x) + payload)
